@@ -9,6 +9,7 @@ import (
 	"math/rand"
 	"os"
 	"path/filepath"
+	"reflect"
 	"sort"
 	"time"
 
@@ -187,6 +188,11 @@ func newOf(obj client.Object) client.Object {
 
 // Store writes obj to the API server (create or update) and returns op ("create"/"update"), the old object.
 func Store(ctx context.Context, cli client.Client, obj client.Object) (string, client.Object, error) {
+	return StoreTouch(ctx, cli, obj, false)
+}
+
+// StoreTouch is Store; touch forces a new metadata.generation although the spec is unchanged.
+func StoreTouch(ctx context.Context, cli client.Client, obj client.Object, touch bool) (string, client.Object, error) {
 	old := newOf(obj)
 	err := cli.Get(ctx, client.ObjectKeyFromObject(obj), old)
 	if err != nil {
@@ -199,6 +205,7 @@ func Store(ctx context.Context, cli client.Client, obj client.Object) (string, c
 	}
 	obj.SetResourceVersion(old.GetResourceVersion())
 	obj.SetUID(old.GetUID())
+	BumpGeneration(old, obj, touch)
 	if ts := obj.GetCreationTimestamp(); ts.IsZero() {
 		obj.SetCreationTimestamp(old.GetCreationTimestamp())
 	}
@@ -237,7 +244,12 @@ func (p *Pipeline) NotifyDelete(old client.Object) bool {
 
 // Apply stores obj and delivers the event to this pipeline's watchers.
 func (p *Pipeline) Apply(obj client.Object) (string, bool, error) {
-	op, old, err := Store(p.Ctx, p.Client, obj)
+	return p.ApplyTouch(obj, false)
+}
+
+// ApplyTouch is Apply with a forced generation bump.
+func (p *Pipeline) ApplyTouch(obj client.Object, touch bool) (string, bool, error) {
+	op, old, err := StoreTouch(p.Ctx, p.Client, obj, touch)
 	if err != nil {
 		return "", false, err
 	}
@@ -371,3 +383,26 @@ func SortedNames(m map[string]bool) []string {
 }
 
 var _ = fmt.Sprintf
+
+// BumpGeneration plays the API server: metadata.generation grows when the spec changes.
+func BumpGeneration(old, obj client.Object, touch bool) {
+	if old == nil {
+		return
+	}
+	gen := old.GetGeneration()
+	changed := touch
+	switch n := obj.(type) {
+	case *networking.Ingress:
+		changed = changed || !reflect.DeepEqual(n.Spec, old.(*networking.Ingress).Spec)
+	case *api.Service:
+		changed = changed || !reflect.DeepEqual(n.Spec, old.(*api.Service).Spec)
+	case *networking.IngressClass:
+		changed = changed || !reflect.DeepEqual(n.Spec, old.(*networking.IngressClass).Spec)
+	default:
+		changed = false
+	}
+	if changed {
+		gen++
+	}
+	obj.SetGeneration(gen)
+}
